@@ -5,8 +5,9 @@ META = dict(
     spec="MFS",
     level_text=("TLC checks the tree model of MFS (Mkdir/Create/Mv/Rm/Chmod/Touch/Lookup/List/FlushPath/FlushRoot and "
                 "descriptor Open/Write/WriteAt/Truncate/Flush/Close) exhaustively to a bounded depth and along random 30-step "
-                "walks against MoveSemantics, FailedOpsNoChange, Frame and AckedWriteVisible; TLC-generated behaviours "
-                "(exhaustive single/double/triple-operation matrices over same-named directories in different parents, plus "
+                "walks against MoveSemantics, MoveRefusal (Mv refused only for a documented reason), FailedOpsNoChange, Frame and AckedWriteVisible; TLC-generated behaviours "
+                "(exhaustive single/double/triple-operation matrices over same-named directories in different parents and over "
+                "entry names that are string prefixes of one another, plus "
                 "simulated 30-operation histories) are replayed into the real mfs.Root in 6 configurations (CIDv0/v1 x "
                 "no sharding / MaxLinks=2 / HAMTShardingSize=40): after every call the result and the whole tree MFS shows "
                 "are compared with the model, and at every flush the root CID is re-read from the block store with a fresh "
@@ -138,8 +139,10 @@ def run(ctx):
         "G-bfs: from the empty tree every sequence of D calls (D=2 quick / 3 thorough; all but the last productive, the "
         "last ANY call incl. refused ones), from two populated trees with same-named directories /a, /b, /a/a, /b/a and "
         "files /a/f, /a/a/f (one with mode/mtime everywhere and a destination file) every sequence of D-1 calls, over 7 "
-        "source paths x 13 Mv destinations (with and without trailing slash). G-sim: random 30-call histories, 2 "
-        "descriptors, 3 names, depth <= 4. Each behaviour runs in one of 6 configurations; compared after EVERY call "
+        "source paths x 13 Mv destinations (with and without trailing slash); from a tree whose entry names are string "
+        "prefixes of one another at two depths (/a, /a/f, /ab, /ab/a, /ab/ab, file /abc) every sequence of D-1 calls "
+        "over 8 paths x 15 Mv destinations (moves into siblings whose printed path starts with the source's, into "
+        "the own subtree, onto files). G-sim: random 30-call histories, 2 descriptors, names a/ab/f, depth <= 4. Each behaviour runs in one of 6 configurations; compared after EVERY call "
         "(and, second pass, only at flushes/end so that the object cache is not refreshed by observation). "
         "T: random 60-80 call runs of the real code. non-trivial = the model tree changes at least twice")
     open_devs = [d for d in ctx.open_devs() if d in ALL_DEVS]
@@ -151,10 +154,16 @@ def run(ctx):
     q = ctx.quick
     # ---- configs
     d_bfs = 2 if q else 3
-    make_cfg(sdir, "GenMFS.cfg", "g_bfs.cfg", OPEN=tla_set(open_devs), AVOID=tla_set(open_devs), D=d_bfs, PRESETS="{1, 2, 3}")
-    make_cfg(sdir, "GenMFS.cfg", "g_bfs_probe.cfg", OPEN=tla_set(open_devs), AVOID="{}", D=2, PRESETS="{1, 2, 3}")
+    make_cfg(sdir, "GenMFS.cfg", "g_bfs.cfg", OPEN=tla_set(open_devs), AVOID=tla_set(open_devs), D=d_bfs, PRESETS="{1, 2, 3}",
+             ARGS="GArgPaths", DSTS="GMvDsts")
+    make_cfg(sdir, "GenMFS.cfg", "g_bfs_probe.cfg", OPEN=tla_set(open_devs), AVOID="{}", D=2, PRESETS="{1, 2, 3}",
+             ARGS="GArgPaths", DSTS="GMvDsts")
+    # prefix-name family: names that are string prefixes of one another (a, ab, abc) at several depths; every call
+    # (quick) / every productive call followed by every call (thorough) from a tree populated with them
+    make_cfg(sdir, "GenMFS.cfg", "g_bfs_pfx.cfg", OPEN=tla_set(open_devs), AVOID=tla_set(open_devs), D=d_bfs, PRESETS="{6}",
+             ARGS="XArgPaths", DSTS="XMvDsts")
     make_cfg(sdir, "GenMFSSim.cfg", "g_sim.cfg", OPEN=tla_set(open_devs), AVOID=tla_set(open_devs), MAXDEPTH=4,
-             NAMES='{"a", "b", "f"}')
+             NAMES='{"a", "ab", "f"}')      # "a" is a string prefix of "ab": printed paths vs. name-by-name
     # probes: few names and a shallow tree so that descriptors and the calls around them meet often
     make_cfg(sdir, "GenMFSSim.cfg", "g_sim_probe.cfg", OPEN=tla_set(open_devs), AVOID="{}", MAXDEPTH=3, NAMES='{"a", "f"}')
     make_cfg(sdir, "GenMFSProbe.cfg", "g_fd_probe.cfg", OPEN=tla_set(open_devs))
@@ -172,6 +181,7 @@ def run(ctx):
 
     bg(mc, ctx, sdir, "mc.cfg", 4 if q else 8, 900 if q else 5400, not q)
     bg(gen, ctx, sdir, "g_bfs.cfg", "bfs", timeout=900 if q else 3000, workers=2 if q else 8, out=outs)
+    bg(gen, ctx, sdir, "g_bfs_pfx.cfg", "pfx", timeout=900 if q else 3000, workers=2 if q else 8, out=outs)
     bg(gen, ctx, sdir, "g_sim.cfg", "sim", simulate=nsim // 10, depth=31 * 10 + 1, timeout=900 if q else 3000, out=outs)
     if open_devs:
         bg(gen, ctx, sdir, "g_sim_probe.cfg", "simprobe", simulate=nprobe // 10, depth=31 * 10 + 1, timeout=900 if q else 3000, out=outs)
@@ -199,7 +209,7 @@ def run(ctx):
             return False
         return True
 
-    main = outs.get("bfs", []) + outs.get("sim", [])
+    main = outs.get("bfs", []) + outs.get("pfx", []) + outs.get("sim", [])
     if not replay("main", main, "all", ctx.seed):
         return
     # second pass: observe only at flushes and at the end (observation refreshes MFS's object cache)
